@@ -3,6 +3,7 @@ package main
 import (
 	"bytes"
 	"io"
+	"testing/iotest"
 
 	blocks "github.com/ipfs/go-block-format"
 	"github.com/ipfs/go-cid"
@@ -47,11 +48,47 @@ func blocksObs(bs []blocks.Block, end error) Val {
 	return VL{out, verr(end)}
 }
 
-func runScanImpl(kind uint64, o rOpts, file []byte, plain bool) Val {
+// Delivery patterns of the byte source handed to a reader.  The model reads byte strings: how a source
+// slices its bytes into Read calls, and whether it reports io.EOF together with the last bytes or on a
+// separate call (both allowed by the io.Reader contract), is a harness dimension the model abstracts --
+// every pattern must give the observation the model computes from the bytes alone.
+const (
+	srcModeBytes   = 0 // *bytes.Reader (Read, ReadByte, Seek, ReadAt, ...)
+	srcModePlain   = 1 // Read only, whole requests
+	srcModeDataErr = 2 // Read only; the final bytes come together with io.EOF (iotest.DataErrReader)
+	srcModeHalf    = 3 // Read only; half of each request (iotest.HalfReader)
+	srcModeOneByte = 4 // Read only; one byte per call (iotest.OneByteReader)
+)
+
+func c02xSource(file []byte, mode int) io.Reader {
 	var r io.Reader = bytes.NewReader(file)
-	if plain {
-		r = plainReader{r}
+	switch mode {
+	case srcModePlain:
+		return plainReader{r}
+	case srcModeDataErr:
+		return iotest.DataErrReader(plainReader{r})
+	case srcModeHalf:
+		return iotest.HalfReader(plainReader{r})
+	case srcModeOneByte:
+		return iotest.OneByteReader(plainReader{r})
 	}
+	return r
+}
+
+// c02xMode draws a delivery pattern.
+func c02xMode(r *RNG) int {
+	return pick(r, []int{srcModeBytes, srcModePlain, srcModePlain, srcModeDataErr, srcModeDataErr, srcModeHalf, srcModeOneByte})
+}
+
+func runScanImpl(kind uint64, o rOpts, file []byte, plain bool) Val {
+	mode := srcModeBytes
+	if plain {
+		mode = srcModePlain
+	}
+	return runScanImplSrc(kind, o, c02xSource(file, mode))
+}
+
+func runScanImplSrc(kind uint64, o rOpts, r io.Reader) Val {
 	switch kind {
 	case 0:
 		br, err := carv2.NewBlockReader(r, o.v2()...)
@@ -131,7 +168,11 @@ func init() {
 		l := in.(VL)
 		ol := l[1].(VL)
 		o := rOpts{ol[0].(VN) != 0, uint64(ol[1].(VN)), uint64(ol[2].(VN)), ol[3].(VN) != 0}
-		return runScanImpl(uint64(l[0].(VN)), o, []byte(l[2].(VB)), false)
+		mode := srcModeBytes
+		if len(l) > 6 {
+			mode = int(l[6].(VN))
+		}
+		return runScanImplSrc(uint64(l[0].(VN)), o, c02xSource([]byte(l[2].(VB)), mode))
 	})
 }
 
